@@ -1,5 +1,14 @@
 #!/usr/bin/env python3
-"""C03 — written-back x, y, err_z are feasible, finite, mutually consistent.  DESIGN.md §6 C03."""
+"""C03 — written-back x, y, err_z are feasible, finite, mutually consistent.  DESIGN.md §6 C03.
+
+Monitors on the real solvers' outputs: untouched outputs when nothing is to be written; x finite and in C up to 4 ulp
+of the operands of the projection; err_z = g(x) − Π_D(g(x) + y/Σ) and y = y_in + Σ·err_z in exact rationals
+(256 ε (n+2) of the operands); multiplier signs; PANOC-OCP: û ∈ U on EVERY written exit (all statuses); every callback's
+tuple (the final one is what is written back) is exactly what it claims to be (loopmon.consistency).
+Non-finite outputs are exempt only under NaN injection or when a problem function returned a non-finite value at a
+finite point of the final iterate (hypothesis of Props/C03 `x_out_finite_partial`); each cause is counted; the rest is
+the open finding C03-nonfinite-iterate-written-back:<solver>.  An exception of the real solver outside the declared
+throwing classes is a violation (multiloop / loopmon.exception_monitor)."""
 import math
 import os
 import random
@@ -243,7 +252,8 @@ def adapters():
             if exe and nsweep:
                 ops += sweep_ops(rng, exe, nsweep, solver='panoc') if a.name == 'panoc' else mod.sweep_ops(rng, exe, nsweep)
             return ops
-        out.append(LM.Adapter(s, gen))
+        # binding L_max runs (ZeroFPR's `wild` class) are monitored as well: non-finite outputs are classified by cause
+        out.append(LM.Adapter(s, gen, skip_monitor=lambda op: False))
     return out
 
 
